@@ -1001,6 +1001,9 @@ def wl_refusals(ctx, rng, i):
         ("TLP marking with another created", lambda: mod.MarkingDefinition(id="marking-definition--34098fce-860f-48ae-8e50-ebd3cc5e41da", definition_type="tlp", definition={"tlp": "green"}, created="2018-01-01T00:00:00.000Z")),
         ("duplicate registration", lambda: mod.CustomObject("identity", [("prop_one", P.StringProperty())])(type("Body", (object,), {}))),
         ("duplicate extension registration", lambda: mod.CustomExtension("ntfs-ext", [("prop_one", P.StringProperty())])(type("Body", (object,), {}))),
+        ("registration of an object named like an observable", lambda: mod.CustomObject(rng.choice(["domain-name", "file", "ipv4-addr"]), [("prop_one", P.StringProperty())])(type("Body", (object,), {}))),
+        ("registration of an observable named like an object", lambda: mod.CustomObservable(rng.choice(["identity", "indicator", "report"]), [("prop_one", P.StringProperty())])(type("Body", (object,), {}))),
+        ("registration of a marking that is taken", lambda: mod.CustomMarking("tlp", [("prop_one", P.StringProperty())])(type("Body", (object,), {}))),
         ("missing required properties", lambda: mod.Identity()), ("mutually exclusive properties", lambda: stix2.v21.Artifact(payload_bin="AAAA", url="http://x", hashes={"MD5": "0" * 32})),
         ("dependent properties", lambda: stix2.v21.Artifact(url="http://x")), ("at least one property", lambda: stix2.v21.Process()),
         ("invalid object reference", lambda: stix2.v20.ObservedData(first_observed=ts, last_observed=ts, number_observed=1, objects={"0": {"type": "directory", "path": "/", "contains_refs": ["9"]}})),
@@ -1009,7 +1012,19 @@ def wl_refusals(ctx, rng, i):
     ]
     lab, fn = probes[(i // 2) % len(probes)]
     ctx.see("refusal probes", lab)
-    observe(ctx, "refusal: " + lab, fn, dict(w, probe=lab))
+    reg0 = registry_snapshot()
+    if observe(ctx, "refusal: " + lab, fn, dict(w, probe=lab)) == "family":
+        # a refusal leaves the registries as they were (and ordinary content of the built-in types still parses to their classes)
+        check_state(ctx, reg0, dict(w, probe=lab))
+        for content, cls_name in (({"type": "domain-name", "spec_version": "2.1", "id": "domain-name--" + V.uuid_text(rng, 4), "value": "example.com"}, "DomainName"),
+                                  ({"type": "identity", "spec_version": "2.1", "id": "identity--" + V.uuid_text(rng, 4), "created": ts, "modified": ts, "name": "n", "identity_class": "individual"}, "Identity")):
+            ctx.ev()
+            try:
+                got = type(stix2.parse(content)).__name__
+            except Exception as e:
+                got = "refused: %s" % type(e).__name__
+            if got != cls_name:
+                ctx.violation("refused-operation-left-something-behind", "after the refused probe '%s', valid %s content gives %s" % (lab, content["type"], got), dict(w, probe=lab, content=content))
     ctx.nontrivial("refusal", ver, lab)
 
 
@@ -1026,7 +1041,7 @@ def _hashy():
 
 PRINTABLE_ERRORS = True
 WORKLOADS = [
-    Workload("refusals", wl_refusals, quick=104, thorough=520),
+    Workload("refusals", wl_refusals, quick=116, thorough=580),
     Workload("redeclared-names", wl_redeclared, quick=256, thorough=2560),
     Workload("ref-named-properties", wl_ref_names, quick=308, thorough=1540),
     Workload("toplevel-extensions", wl_toplevel, quick=96, thorough=4800),
@@ -1063,8 +1078,10 @@ MANIFEST = {
     "text": ("Fault enumeration at the input boundary: every slot of a valid object of every type is replaced by every other JSON "
              "kind and by kind-specific malformed values, arbitrary junk JSON is parsed, and the inputs the library inspects "
              "before property cleaning get a dedicated exhaustive table; each call is observed for the class of exception that "
-             "escapes, with registry and store snapshots around failures.  Held = no exception outside the documented family was "
+             "escapes, with registry and store snapshots around failures; custom types redeclaring library-known names, the refusals of the rest "
+             "of the public surface and files too deep to read go the same way, and an error-object monitor asks every error instance the "
+             "library created for str() and repr().  Held = no exception outside the documented family was "
              "observed on ~10^5 (quick) / ~10^6 (thorough) faulted calls."),
     "note": "assumes the documented family is STIXError/ValueError/TypeError; wall-clock alarms only ever yield inconclusive",
-    "technique": "runtime monitoring with input-fault injection: exception-class monitor + state snapshots at the API boundary",
+    "technique": "runtime monitoring with input-fault injection: exception-class monitor, error-object monitor (hooked STIXError.__new__) + state snapshots at the API boundary",
 }
